@@ -228,6 +228,12 @@ def classify_sanitizer(text):
     m = re.search(r"WARNING: ThreadSanitizer: ([\w -]+?) \(", text)
     if m:
         return ("tsan", m.group(1).replace(" ", "-"), site)
+    m = re.search(r"ERROR: ThreadSanitizer: ([\w-]+)", text)
+    if m:
+        # a fatal signal inside the instrumented program, reported by the TSan runtime (SEGV, stack-overflow, ...)
+        return ("tsan", m.group(1), site)
+    if "ThreadSanitizer:DEADLYSIGNAL" in text:
+        return ("tsan", "deadly-signal", site)
     if "ThreadSanitizer: can't find longjmp buf" in text:
         # the runtime keeps, per thread, the jump buffers that thread filled with setjmp; it stops the process when a
         # thread longjmps to a buffer it never filled (another thread's, or one whose frame is gone)
